@@ -107,11 +107,12 @@ Theorem C10_condorcet_copeland_order : forall second_order v v' n, NoDup (map fs
   res_equiv (copeland second_order v n) (copeland second_order v' n).
 Proof. intros so v v' n Hnd Hp. exact (copeland_equiv v v' Hnd Hp so n). Qed.
 
-(* ... raw: position by position the same Copeland score (cscores = the score dictionary get_n_best is applied to) *)
-Theorem C10_condorcet_copeland_positions : forall v v' n, NoDup (map fst v) -> Permutation v v' ->
+(* ... position by position the same (first-order) Copeland score - raw and second order
+   (cscores = the score dictionary get_n_best is applied to) *)
+Theorem C10_condorcet_copeland_positions : forall second_order v v' n, NoDup (map fst v) -> Permutation v v' ->
   Permutation (cscores v) (cscores v') /\
-  Forall2 (res_relz (cscores v) (cscores v')) (copeland false v n) (copeland false v' n).
-Proof. intros v v' n Hnd Hp. split; [exact (cscores_perm v v' Hnd Hp)|exact (copeland_raw_sim v v' Hnd Hp n)]. Qed.
+  Forall2 (res_relz (cscores v) (cscores v')) (copeland second_order v n) (copeland second_order v' n).
+Proof. intros so v v' n Hnd Hp. split; [exact (cscores_perm v v' Hnd Hp)|exact (copeland_sim v v' Hnd Hp so n)]. Qed.
 
 (* MinimaxCondorcet, the three scorers (mscores = the negated max-counterscore dictionary) *)
 Theorem C10_condorcet_minimax_order : forall s v v' n, NoDup (map fst v) -> Permutation v v' ->
